@@ -1,8 +1,15 @@
 (* Extraction of the executable models for the correspondence checks.
    ExtrOcamlBasic only; numbers stay abstract (the driver passes an [ops]
-   record), nat / N / positive stay the ordinary extracted inductives. *)
+   record), nat / N / positive stay the ordinary extracted inductives.
+   Run with the output directory as cwd (Coq 8.16 has no output-dir option). *)
 From Coq Require Import Extraction ExtrOcamlBasic.
-From LF Require Import Base.Opcode Base.Num Base.Arena Tree.Build Tree.Flatten.
+From LF Require Import Base.Opcode Base.Num Base.Arena Tree.Build Tree.Flatten
+  Tree.Optimize Eval.Deck Eval.Push.
 
 Extraction Language OCaml.
-Set Extraction Output Directory ".".
+Extraction "model.ml"
+  all_opcodes code of_code args is_commutative is_idempotent
+  init_arena mk_const mk_nullary mk_var mk_unary mk_bin mk_remap mk_apply
+  flags_of flatten optimized optimized_helper tree_eq
+  walk mk_deck init_slots set_point eval_tape tape_value
+  tape_push keep_point keep_interval.
